@@ -2,6 +2,7 @@ import NetVerif.Model.Punycode
 import NetVerif.Gen.C50
 import NetVerif.Proofs.Lemmas.Punycode
 import NetVerif.Proofs.Lemmas.PunycodeString
+import NetVerif.Proofs.Lemmas.PunycodeConverse
 /-!
 C50 — IDNA produces canonical A-labels and is idempotent; Punycode encode/decode are inverse.
 
@@ -14,8 +15,11 @@ C50 — IDNA produces canonical A-labels and is idempotent; Punycode encode/deco
   scalar values (the decoder's output limit), with no further hypothesis: the insertion-order
   argument of RFC 3492 §6.2/6.3 (`Lemmas/PunycodeString.lean`), including the proof that the
   decoder's int32 weights never overflow on encoder output (`varint_roundtrip_sharp`).
-  The converse `EncodeDecodeStatement` is still a `def … : Prop`; its per-delta layer is
-  `varint_canonical`, its basic-code-point layer `decode_encode_ascii_partial`.
+  `encode_decode_holds` — the converse: whatever `decode` accepts re-encodes to the same string up
+  to the ASCII case of its digits (`Lemmas/PunycodeConverse.lean`: every decoder run is the replay
+  of a delta sequence; the sequence is monotone in (code point, position), so it is determined by
+  its result (`last_insert_unique`, `replay_inj`); the encoder's output on the result decodes to
+  the same result, hence carries the same deltas and, by `varint_canonical`, the same digits).
 * A-label branch of `Profile.process` (Punycode profile, exact model): `alabel_holds` — undecodable
   payloads and payloads decoding to ASCII only (or to nothing) are rejected, whatever `unicode16`.
 * `monitor_sound`: every observation the V-tie monitor accepts satisfies the property clauses.
@@ -219,6 +223,23 @@ theorem decode_encode_holds : DecodeEncodeStatement := by
       rw [if_neg]
       omega
   exact this s hs
+
+/-- FULL converse (no side conditions): if `decode` accepts `a` with (pre-`string()`) result `u`, then
+`encode` succeeds on `u` and returns `a` up to the ASCII case of the digits; in particular the
+encoding is canonical and unique. -/
+theorem encode_decodeRunes (a u : List Nat) (h : decodeRunes a = some u) :
+    ∃ a', encode [] u = some a' ∧ a'.map lowerAscii = a.map lowerAscii :=
+  Lemmas.PunycodeConverse.encode_decodeRunes a u h
+
+theorem encode_decode_holds : EncodeDecodeStatement := by
+  intro a u _ h _
+  exact encode_decodeRunes a u h
+
+/-- The encoder never fails (no int32 overflow, enough loop fuel) on at most 1024 code points. -/
+theorem encode_succeeds (s : List Nat) (hs : ∀ r ∈ s, r ≤ maxRune) (hlen : s.length ≤ maxOutput) :
+    ∃ a, encode [] s = some a := by
+  obtain ⟨a, _, h, _⟩ := Lemmas.PunycodeConverse.encode_run s hs hlen
+  exact ⟨a, h⟩
 
 /-- The same at the level the decoder works on (before `string([]rune)`), for any code points up to
 U+10FFFF (surrogate values included). -/
